@@ -115,6 +115,12 @@ Step(e) ==
             bd2 == [bound EXCEPT ![c] = Max(@, Max(Max(e.dl, e.mexp), Max(e.sexp, e.aexp)))]
             bad == StoreLifetimeClauses(e, cmin - tol, cmax + tol)
                    \cup (IF e.dl > e.t THEN {} ELSE {"C01.put-deadline"})
+                   \* the chunk's deadline is the store instant plus the EFFECTIVE TTL (the requested one brought into the configured window);
+                   \* reads, listings and peer requests below are judged against the deadline the store recorded, so it must be that one
+                   \* (requested TTL known and positive: the driver's stores; a zero TTL means the default and is left to C02's window clause)
+                   \cup (IF Has(e, "ttl") /\ e.ttl > 0 /\ e.dl # Absent
+                            /\ (e.dl - (e.t + Max(cmin, Min(cmax, e.ttl))) > tol \/ (e.t + Max(cmin, Min(cmax, e.ttl))) - e.dl > tol)
+                         THEN {"C01.deadline-is-not-the-effective-ttl"} ELSE {})
                    \cup DerivedClauses(e.proj, bd2)
         IN Common(e, bad, r2, held \cup {c}, bd2, owed, notified, sl2)
     [] e.op = "get" ->
